@@ -33,7 +33,7 @@ type c05 struct {
 func init() { Props["C05"] = &c05{} }
 
 func (c *c05) Rule() string {
-	return "grid of (input family x size, limit in {0,1,2,len-1,len,len+1,64,3072,2*len}) pairs; per pair every fault offset 0..min(len,limit) (0..len when limit=0; quick tier: head, tail and a seeded sample of the middle when there are more than 96) x {error alone, error together with data} x seeded delivery schedules (single read, byte-at-a-time, random chunks with zero-length reads, data+EOF, scribbling), through DetectReader (plain reader, io.WriterTo-capable reader, *bytes.Reader) and DetectFile (simulated files; real temp files/directories for the kernel-fidelity subset). A case is non-trivial when the injected fault actually fired or a non-default delivery schedule was executed; distinct = distinct (input, limit, entry point, fault offset, with-data, schedule class) tuples"
+	return "grid of (input family x size, limit in {0,1,2,len-1,len,len+1,64,3072,2*len}) pairs; per pair every fault offset 0..min(len,limit) (0..len when limit=0; quick tier: head, tail and a seeded sample of the middle when there are more than 700) x {error alone, error together with data} x seeded delivery schedules (single read, byte-at-a-time, random chunks with zero-length reads, data+EOF, scribbling), through DetectReader (plain reader, readers that also offer io.WriterTo / io.Seeker / Len(), *bytes.Reader) and DetectFile (simulated files; real temp files/directories for the kernel-fidelity subset). A case is non-trivial when the injected fault actually fired or a non-default delivery schedule was executed; distinct = distinct (input, limit, entry point, fault offset, with-data, schedule class) tuples"
 }
 
 func c05Inputs() []inputs.Input {
@@ -85,21 +85,21 @@ func (c *c05) build(seed uint64, tier string) {
 		}
 		// offsets 0..m inclusive; beyond-the-header offsets m+1.. are sampled: they must never surface
 		var offs []int
-		if tier == "thorough" || m <= 96 {
+		if tier == "thorough" || m <= 700 {
 			for k := 0; k <= m; k++ {
 				offs = append(offs, k)
 			}
 		} else {
 			r := core.NewRand(core.Mix(seed, 0xc05, uint64(pi)))
 			pick := map[int]bool{}
-			for k := 0; k <= 32; k++ {
+			for k := 0; k <= 64; k++ {
 				pick[k] = true
 			}
-			for k := m - 32; k <= m; k++ {
+			for k := m - 64; k <= m; k++ {
 				pick[k] = true
 			}
-			for i := 0; i < 32; i++ {
-				pick[r.Range(33, m-33)] = true
+			for i := 0; i < 96; i++ {
+				pick[r.Range(65, m-65)] = true
 			}
 			for k := 0; k <= m; k++ {
 				if pick[k] {
@@ -204,7 +204,7 @@ func (c *c05) Plan(seed uint64, tier string, worker, workers, idx int) *Plan {
 				case e < 4:
 					op.Kind = "reader"
 				case e < 5:
-					op.Kind, op.Wrap = "reader", "wt"
+					op.Kind, op.Wrap = "reader", []string{"wt", "seek", "len"}[r.Intn(3)]
 				default:
 					op.Kind = "file"
 				}
@@ -334,8 +334,16 @@ func (c *c05) Check(rr *RunResult, st *Stats) []Failure {
 		} else if op.Wrap == "bytes" {
 			consumed = n - res.BytesLeft
 		}
-		if limit > 0 && consumed > int(limit) {
+		// The consumption bound is stated for DetectReader; how much DetectFile
+		// reads from a file it opened itself is not observable by the caller.
+		if op.Kind == "reader" && limit > 0 && consumed > int(limit) {
 			bad("over-read", "%d bytes were taken from the reader, the limit is %d", consumed, limit)
+		}
+		if op.Kind == "reader" && limit > 0 && res.Stream != nil && res.Stream.Pos() > int(limit) {
+			bad("over-read", "the reader was left at offset %d, the limit is %d", res.Stream.Pos(), limit)
+		}
+		if op.Kind == "file" && !reach && k >= 0 {
+			corner = true // a file failing beyond the header: the statement covers failures before the header is complete only
 		}
 		if limit == 0 && k < 0 && consumed >= 0 && consumed != n {
 			bad("under-read", "limit 0 must consume everything: %d of %d bytes taken", consumed, n)
